@@ -59,4 +59,12 @@ inductive Source where
   | unknown
   deriving DecidableEq, Repr
 
+/-- What `get_kvm_hashes` removes duplicates of before it keeps the smallest hashes: the *values*
+(`data = list(set(data))`, one heap entry per distinct value — two values with one hash give two entries) or
+the *hashes* (a set of hashes — two values with one hash give one entry). -/
+inductive SketchDedup where
+  | values
+  | hashes
+  deriving DecidableEq, Repr
+
 end Profile
